@@ -26,19 +26,25 @@ ENTRY = dict(
     exhaustive=False,
     multi_seed=False,   # the enumerated scripts do not depend on the seed; the thorough tier draws more seeded ones instead
     facts_from=["Engine"],
-    rule=("c11: 13 program shapes (1..3 intermediate catch events with signal / message / two definitions, in sequence, in "
+    rule=("c11: 15 program shapes (1..3 intermediate catch events with signal / message / two definitions, in sequence, in "
           "parallel branches, behind a never-taken exclusive-gateway branch registered before or after the reached one, two "
-          "tokens meeting at one catch event, two catch events behind an event-based gateway), tasks around every catch event; "
-          "driver scripts = words over {deliver one of the shape's events incl. a non-matching and a same-name-other-kind one, "
-          "answer the 1st/2nd pending task, start}: all words up to length 3 (quick: half of the length-3 words for the larger "
-          "alphabets, length 4 for the smallest shape; thorough: 4 / 5), inbox-filling scripts (4..8 deliveries before arming, "
-          "then arm and deliver), late events for the losing alternative of the event-based gateway, deliveries before "
-          "StartAll, seeded scripts with 5..8 deliveries (4 per shape; thorough 160); every delivery under a 700 ms deadline "
-          "(a call that missed it is re-examined at quiescence so that a slow call is not taken for a blocked one); after "
-          "every action the requests, completions, listener traces (listening / observed / fired) and the return status "
-          "observed at quiescence must equal the model's (the event-based-gateway shape is judged by the predicate only), "
-          "and the C11 predicate is evaluated on the implementation's own traces; non-trivial = some listener fired or some "
-          "delivery blocked; distinct by shape, script and recorded history"),
+          "or three tokens meeting at one catch event at different times, a catch event inside a loop (four rounds), two "
+          "catch events behind an event-based gateway), tasks around every catch event; driver scripts = words over {deliver "
+          "one of the shape's events incl. a non-matching and a same-name-other-kind one, answer the 1st/2nd pending task, "
+          "start}: all words up to length 3 (quick: half of the length-3 words for the larger alphabets, length 4 for the "
+          "smallest shape; thorough: 4 / 5), inbox-filling scripts (4..8 deliveries before arming, then arm and deliver), "
+          "re-firing scripts (the same node fires 3..5 times, with non-matching events in between and 8 late deliveries "
+          "afterwards), BURSTS (listener armed, then 5..10 events handed in back to back without waiting, the matching one "
+          "last or in the middle, from 1 or 2 goroutines, with and without a trace subscriber that takes 1 ms per trace; in "
+          "the re-firing shapes also one burst per round), late events for the losing alternative of the event-based "
+          "gateway, deliveries before StartAll, seeded scripts with 5..8 deliveries (4 per shape; thorough 160); every "
+          "delivery / burst under a deadline (700 ms, +100 ms per event of a burst; a call that missed it is re-examined at "
+          "quiescence so that a slow call is not taken for a blocked one); after every action the requests, completions, "
+          "listener traces (listening / observed / fired) and the return status observed at quiescence must equal the "
+          "model's (a burst = its deliveries one after the other: a send to a running reader waits, it never drops; the "
+          "event-based-gateway shape is judged by the predicate only), and the C11 predicate is evaluated on the "
+          "implementation's own traces; non-trivial = some listener fired or some delivery blocked; distinct by shape, "
+          "script and recorded history"),
     trusted_base=TB_COMMON + ["whole-process quiescence detection via runtime.Stack goroutine states",
                               "a delivery that has not returned after 700 ms is taken as blocked"],
     assumptions=["deliveries are issued one at a time at quiescence (no delivery concurrent with a token arriving at a catch event)",
